@@ -47,15 +47,15 @@ class ApplyMonitors:
                     raise core.AbortRun("schema-invalid document produced (C01's business)")
                 return
         if "C05" in self.on:
-            self.c05_twin_check(step, doc, res)
+            self.guard("C05", self.c05_twin_check, step, doc, res)
         if not base_valid:
             return
         if "C03" in self.on:
-            self.c03_judge(step, doc, res.doc, kind)
+            self.guard("C03", self.c03_judge, step, doc, res.doc, kind)
         if "C08" in self.on and not nested:
-            self.c08_single_map(step, doc, res.doc)
+            self.guard("C08", self.c08_single_map, step, doc, res.doc)
         if "C04" in self.on and not nested:
-            self.c04_single(step, doc, res.doc, kind)
+            self.guard("C04", self.c04_single, step, doc, res.doc, kind)
         if "C10" in self.on and not nested:
             self.retain("doc", res.doc)
             self.retain("step", step)
@@ -245,7 +245,7 @@ class ApplyMonitors:
     def on_transform(self, client, tr, refused, ops, exact_undo=True):
         sim = self.sim
         if "C04" in self.on:
-            self.c04_transform(client, tr, refused, ops, exact_undo)
+            self.guard("C04", self.c04_transform, client, tr, refused, ops, exact_undo)
         if "C03" in self.on:
             for i, st in enumerate(tr.steps):
                 m = tr.mapping.maps[i]
@@ -255,7 +255,7 @@ class ApplyMonitors:
                         "shape": core.step_kind(st), "index": i, "step": self.describe_step(st),
                         "recorded": [m.ranges, m.inverted], "step_map": [g.ranges, g.inverted]})
         if "C08" in self.on:
-            self.c08_transform(tr)
+            self.guard("C08", self.c08_transform, tr)
         if ("C16" in self.on and self.is_core()) or "C10" in self.on:
             n = len(tr.steps)
             for i in range(n - 1):
@@ -265,9 +265,10 @@ class ApplyMonitors:
                     m = None
                 if m is not None:
                     after = tr.docs[i + 2] if i + 2 < len(tr.docs) else tr.doc
-                    self.on_merge(client, tr.steps[i], tr.steps[i + 1], m, tr.docs[i], after, "history")
+                    self.guard("C16", self.on_merge, client, tr.steps[i], tr.steps[i + 1], m, tr.docs[i], after,
+                               "history")
         if tr.steps:
-            self.on_pair(tr.before, tr.doc, "edit")
+            self.guard("C20", self.on_pair, tr.before, tr.doc, "edit")
         if "C10" in self.on:
             for d in tr.docs:
                 self.retain("doc", d)
@@ -294,7 +295,7 @@ class ApplyMonitors:
 
             tr.doc.descendants(visit)
         if "C05" in self.on and tr.steps:
-            self.c05_parts(tr)
+            self.guard("C05", self.c05_parts, tr)
 
     def c04_transform(self, client, tr, refused, ops, exact_undo):
         sim = self.sim
